@@ -27,9 +27,11 @@ def width_t(s):
 class RenderFrame(Harness):
     prop = "C20"; opname = "render_op"
     goals = ["data_frame.py:DataFrame.to_string", "vector.py:Vector.to_strings", "util.py:upad", "util.py:ulen"]
-    def __init__(self, kinds, maxn, cls="DataFrame"):
-        self.kinds = kinds; self.maxn = maxn; self.cls = cls
-        self.name = f"C20.{'frame' if cls == 'DataFrame' else 'geojson'}.{'+'.join(kinds)}.n{maxn}"
+    SETTINGS = [(), (("PRINT_MAX_ROWS", 1),), (("PRINT_TRUNCATE_WIDTH", 5), ("PRINT_THOUSAND_SEPARATOR", ",")), (("PRINT_FLOAT_PRECISION", 0), ("PRINT_MAX_ROWS", 2)),
+                (("PRINT_MAX_WIDTH", 30),)]
+    def __init__(self, kinds, maxn, cls="DataFrame", settings=False):
+        self.kinds = kinds; self.maxn = maxn; self.cls = cls; self.settings = settings
+        self.name = f"C20.{'frame' if cls == 'DataFrame' else 'geojson'}.{'+'.join(kinds)}{'.settings' if settings else ''}.n{maxn}"
         self.bounds = {"rows": f"0..{maxn}", "columns": [DTYPE_LABEL[k] for k in kinds], "max_width": "5..60 or terminal 20..200",
                        "max_rows": "1..nrow+1 or default", "truncate_width": "default, 5, 36",
                        "strings": "from a pool with CJK (wide), combining marks, multi-line, 45 characters, empty"}
@@ -44,6 +46,8 @@ class RenderFrame(Harness):
             cols["geometry"] = Arr("object", [choice(f"g{i}", [None, {"type": "Point", "coordinates": [1, 2]}]) for i in range(n)])
         how = choice("how", ["to_string", "repr", "print_"])
         inp = {"obj": Frame(cols, cls=self.cls), "kind": "frame", "how": how, "kwargs": []}
+        if self.settings:
+            inp["settings"] = [list(x) for x in choice("settings", self.SETTINGS)]
         if how in ("to_string", "print_") and choice("give_max_width", [True, False]):
             inp["kwargs"].append(["max_width", render.SymWidth(symx.sym_int_range("max_width", 5, 60))])
         else:
@@ -79,8 +83,10 @@ class RenderFrame(Harness):
             else: blocks[-1].append(ln)
         nshown = len(blocks[0]) - 3 if blocks and len(blocks[0]) >= 3 else -1
         if mr is None:
-            cl.append(("min(nrow, max_rows) data rows are shown", T(nshown == min(nrow, 100))))
-            cl.append(("total row count stated iff rows were cut", T(bool(cut_line) == (nrow > 100))))
+            dflt = dict(tuple(x) for x in inp.get("settings") or []).get("PRINT_MAX_ROWS", 100)
+            cl.append(("min(nrow, max_rows) data rows are shown", T(nshown == min(nrow, dflt))))
+            cl.append(("total row count stated iff rows were cut", T(bool(cut_line) == (nrow > dflt))))
+            if cut_line: cl.append(("the stated total is nrow", T(cut_line[0] == f"... {nrow} rows total")))
         else:
             m = BV(mr)
             cl.append(("min(nrow, max_rows) data rows are shown", z3.If(m < nrow, m, BV(nrow)) == BV(nshown)))
@@ -159,7 +165,8 @@ class RenderLod(Harness):
 
 def harnesses(tier):
     q = tier == "quick"
-    hs = [RenderFrame(["i"], 2), RenderFrame(["f"], 1 if q else 2), RenderFrame(["T", "i"], 1 if q else 2), RenderFrame(["O", "D"], 2),
+    hs = [RenderFrame(["i"], 2, settings=True), RenderFrame(["T"], 1 if q else 2, settings=True), RenderFrame(["f"], 1 if q else 2, settings=True),
+          RenderFrame(["i"], 2), RenderFrame(["f"], 1 if q else 2), RenderFrame(["T", "i"], 1 if q else 2), RenderFrame(["O", "D"], 2),
           RenderFrame(["i"], 2, cls="GeoJSON"), RenderFrame([], 0)]
     for k in ("i", "f", "T", "O", "b", "D"):
         hs.append(RenderVector(k, 2))
